@@ -110,7 +110,11 @@ RULE = ('streams: exhaustive op sequences of exact depth 4 (quick) / 5 (thorough
         'own array, an int16 / float32 / read-only float64 array} for int16/f4/f8 array images and scaled / unscaled proxy '
         'images; `gen-random`: every fourth random sequence; `genspec`: ArrayProxy(BytesIO, spec) for header objects (a real '
         'Nifti1Header and a duck-typed header with slope / intercept independently None) x 3 dtypes x 16 scalings, and tuple '
-        'specs of length 0..7, against the spec handling translated from ArrayProxy.__init__.')
+        'specs of length 0..7, against the spec handling translated from ArrayProxy.__init__. NEUTRAL ops (harness-only, '
+        'stripped from the model line, no output of their own): img.set_data_dtype(f4|f8|i2), get_data_dtype, header descrip / '
+        'zooms edits, set_qform / set_sform, affine / shape reads, update_header, np.asarray(dataobj) — stream `neutral` '
+        '(fill -> edit -> neutral op -> re-read / in_memory for every configuration, class and constructor) and 30% of the '
+        'random histories without header-pair ops.')
 
 DTS = {'i2': np.int16, 'f4': np.float32, 'f8': np.float64}
 DTNAME = {np.dtype(v): k for k, v in DTS.items()}
@@ -315,7 +319,11 @@ def mk_case(kind, dt, scale, raw, ops, flavour, stream='main', kfo=None, mmap=Tr
     # (Generated/C13Funcs.lean) run by the driver on the abstract state; with `inject` (mode 'gen' only) the image is
     # first put into an arbitrary abstract state: extra arrays [(dtype, values, read_only)] and which array (id) sits
     # in `_fdata_cache` / `_data_cache`
-    rawtok, opstok = ','.join(map(str, raw)) if raw else '-', ';'.join(ops) if ops else '-'
+    # NEUTRAL ops (`n…`: image-level calls that must leave the cache alone) are HARNESS-ONLY: the model sees the
+    # history without them and they produce no output of their own, so the correspondence itself states "a neutral op
+    # changes no later observation"
+    mops = [o for o in ops if o[0] != 'n']
+    rawtok, opstok = ','.join(map(str, raw)) if raw else '-', ';'.join(mops) if mops else '-'
     if inject is not None:
         if mode != 'gen':
             raise ValueError('inject needs mode gen')
@@ -661,6 +669,44 @@ SPELL = {
 }
 
 
+NEUTRAL = ['nd4', 'nd8', 'ndi', 'ng', 'nh', 'nz', 'nq', 'nf', 'na', 'ns', 'nu', 'nb']
+
+
+def _neutral(img, op):
+    """image-level operations that are neither `uncache()` nor a caching read: the cache state must survive them"""
+    if op[:2] == 'nd':
+        img.set_data_dtype({'4': np.float32, '8': np.float64, 'i': np.int16}[op[2]])
+    elif op == 'ng':
+        img.get_data_dtype()
+    elif op == 'nh':
+        try:
+            img.header['descrip'] = b'edited'
+        except (KeyError, ValueError, AttributeError, IndexError):
+            pass
+    elif op == 'nz':
+        img.header.set_zooms((2.0, 2.0, 2.0))
+    elif op == 'nq':
+        if hasattr(img, 'set_qform'):
+            img.set_qform(np.eye(4))
+    elif op == 'nf':
+        if hasattr(img, 'set_sform'):
+            img.set_sform(np.diag([2.0, 2.0, 2.0, 1.0]))
+    elif op == 'na':
+        img.affine  # noqa: B018
+    elif op == 'ns':
+        img.shape  # noqa: B018
+    elif op == 'nu':
+        img.update_header()
+    elif op == 'nb':
+        np.asarray(img.dataobj)
+    else:
+        raise RuntimeError('unknown neutral op ' + op)
+
+
+def _obs_ops(d):
+    return [o for o in d['ops'] if o[0] != 'n']
+
+
 def run_real(d):
     img, orig, own, same, cleanup = build(d)
     alive, ids, outs, last = [], {}, [], None
@@ -683,6 +729,11 @@ def run_real(d):
     try:
         for op in d['ops']:
             r, res = None, '-'
+            if op[0] == 'n':
+                with warnings.catch_warnings():
+                    warnings.simplefilter('ignore')
+                    _neutral(img, op)
+                continue
             try:
                 with warnings.catch_warnings():
                     warnings.simplefilter('ignore')
@@ -870,7 +921,7 @@ class DocModel:
 
 def expected(d):
     m = DocModel(d)
-    return [m.step(op) for op in d['ops']]
+    return [m.step(op) for op in _obs_ops(d)]
 
 
 def oracle(case, out):
@@ -895,7 +946,7 @@ def oracle(case, out):
         if g != e:
             return ('step %d (%s) of %s on %s image (%s, scale %s, flavour %s)%s: documented model gives %s, '
                     'implementation gives %s  [id:dtype:values:writeable:in_memory]'
-                    % (i, d['ops'][i], ';'.join(d['ops']), 'array' if d['kind'] == 'A' else 'proxy', d['dt'],
+                    % (i, _obs_ops(d)[i], ';'.join(d['ops']), 'array' if d['kind'] == 'A' else 'proxy', d['dt'],
                        d.get('scale'), '%s%s' % (d.get('flavour'), (' keep_file_open=%r mmap=%r' % (d.get('kfo'), d.get('mmap', True)))
                                                   if ('kfo' in d or 'mmap' in d) else ''),
                        (' from the injected state %r' % (d['inject'],)) if d.get('inject') else '', e, g))
@@ -920,7 +971,7 @@ def signature(case, what):
     for i, (g, e) in enumerate(zip(got, exp)):
         if g != e:
             ge, ee = g.split(':'), e.split(':')
-            if d['ops'][i][0] == 'h' and ge[:-1] != ee[:-1]:
+            if _obs_ops(d)[i][0] == 'h' and ge[:-1] != ee[:-1]:
                 what_ = 'header'
             elif ge[-1] != ee[-1]:
                 what_ = 'in_memory'
@@ -932,7 +983,7 @@ def signature(case, what):
                 what_ = 'writeable'
             else:
                 what_ = 'values'
-            opk = {'g': 'get_fdata', 'd': 'get_data', 'a': 'read', 's': 'read', 'h': 'hdr'}.get(d['ops'][i][0], 'other')
+            opk = {'g': 'get_fdata', 'd': 'get_data', 'a': 'read', 's': 'read', 'h': 'hdr'}.get(_obs_ops(d)[i][0], 'other')
             return 'c13:%s:%s:%s' % (d['kind'], opk, what_)
     return 'c13:%s:other' % d['kind']
 
@@ -1120,6 +1171,24 @@ def gen_cases(rng, tier):
     return out
 
 
+def neutral_cases(tier):
+    """stream `neutral`: fill -> edit -> NEUTRAL image-level op -> re-read / in_memory, every image kind: the cached array
+    (identity, the edit) and in_memory must survive img.set_data_dtype / header edits / affine, shape reads /
+    update_header / np.asarray(dataobj)"""
+    out = []
+    cfgs = [(c, None, True) for c in CONFIGS + MORE_CONFIGS + CLASS_CONFIGS] + \
+           [(c[:5], c[5], c[6]) for c in CTOR_CONFIGS] + [(IO_CONFIGS[0], True, 'r'), (IO_CONFIGS[1], False, False)]
+    for (kind, dt, scale, raw, fl), kfo, mm in cfgs:
+        for r1 in ('gf4', 'gf8', 'df'):
+            for nop in NEUTRAL:
+                if fl == 'mgh' and nop == 'nd8':
+                    continue
+                for r2 in (['gf4'], ['gf8'], ['gu8', 'gu4'], ['m', 'du']):
+                    out.append(mk_case(kind, dt, scale, raw, [r1, 'el', nop] + r2 + ['m', 'gu4', 'gu8'], fl, 'neutral',
+                                       kfo, mm))
+    return out
+
+
 CORE = ['gf4', 'gf8', 'gu4', 'gu8', 'a', 'u', 'el']
 EXH_A = CORE + ['df', 'e0']
 EXH_P = CORE + ['s1,_,_', 'df', 'hi:s3,5', 'ho:s3,5']
@@ -1222,6 +1291,7 @@ def cases(rng, tier):
             out.append(mk_case(kind, dt, scale, raw, ops, fl, 'spell', spell=True))
     out.extend(history_cases(tier))
     out.extend(gen_cases(rng, tier))
+    out.extend(neutral_cases(tier))
     out.extend(spec_cases(rng, tier))
     if tier == 'thorough':
         for (kind, dt, scale, raw, fl) in (CONFIGS[0], CONFIGS[2], CONFIGS[3], CONFIGS[4]):
@@ -1268,6 +1338,13 @@ def cases(rng, tier):
         kfo, mm = None, True
         if kind == 'P' and rng.random() < 0.6:
             kfo, mm = rng.choice(KFO), rng.choice(MMAP)
+        if not any(o[0] == 'h' for o in ops) and rng.random() < 0.3:
+            # neutral image-level ops anywhere in the history (not mixed with header-pair observations)
+            for _ in range(rng.choice([1, 2, 3])):
+                nop = rng.choice(NEUTRAL)
+                if fl == 'mgh' and nop == 'nd8':
+                    nop = 'nd4'
+                ops.insert(rng.randrange(0, len(ops) + 1), nop)
         sp = rng.random() < 0.2
         out.append(mk_case(kind, dt, scale, raw, ops, fl, 'random', kfo, mm, spell=sp))
         if len(out) % 4 == 0:
